@@ -1252,7 +1252,7 @@ def nontrivial_path(res):
 
 
 # ------------------------------------------------------------------ run
-def balanced_eval(prop, terms, tag, nshards=16):
+def balanced_eval(prop, terms, tag, nshards=16, timeout=900):
     """coq_eval with the terms dealt over the shards by size (largest first, round robin)"""
     if not terms:
         return []
@@ -1267,7 +1267,7 @@ def balanced_eval(prop, terms, tag, nshards=16):
             pos[i] = len(flat)
             flat.append(terms[i])
         flat += ['""%string'] * (per - len(b))
-    res = common.coq_eval(prop, IMPORTS, flat, per_file=per, tag=tag)
+    res = common.coq_eval(prop, IMPORTS, flat, per_file=per, tag=tag, timeout=timeout)
     return [res[pos[i]] for i in range(len(terms))]
 
 
@@ -1373,7 +1373,7 @@ def run_all(ctx, prop, hist_oracle_fn, path_oracle_fn, sample_k, n_hist, n_bad, 
                 if process_path(ctx, gen_path_case(rng, flavour, ctx.thorough), path_oracle_fn, sample_k, terms, meta):
                     got += 1
     t_drive = time.time()
-    lines = balanced_eval(prop, terms, 'cases', nshards=ctx.scale(16, 96))
+    lines = balanced_eval(prop, terms, 'cases', nshards=ctx.scale(16, 96), timeout=ctx.scale(900, 5400))
     ctx.extra['timing_s'] = {'proofs': round(t_start - ctx.t0, 1), 'gnpy_side': round(t_drive - t_start, 1),
                              'coq_eval': round(time.time() - t_drive, 1), 'terms': len(terms),
                              'term_chars': sum(len(x) for x in terms)}
